@@ -208,7 +208,8 @@ def run(ctx):
             ok = sym_is_call(r, "Duration::as_secs_f64") and (sym_arg(r[2][0]) or (None,))[0] == 0
             want = "self.as_secs_f64()"
         else:
-            ok = sym_is_call(r, "From::from", "convert::From<T>::from") and (sym_arg(r[2][0]) or (None,))[0] == 0 and "f64" in (r[1] if isinstance(r[1], str) else "") + str(r[3])
+            # f64::from(self) or self.into() (the blanket Into goes through the same lossless From impl; the function returns f64)
+            ok = (sym_is_call(r, "From::from", "convert::From<T>::from") and (sym_arg(r[2][0]) or (None,))[0] == 0 and "f64" in (r[1] if isinstance(r[1], str) else "") + str(r[3])) or (sym_is_call(r, "Into::into") and (sym_arg(r[2][0]) or (None,))[0] == 0 and not sym_is_call(r, "as_"))
             want = "f64::from(self) (lossless)"
         chk.ob("C04.d", f.path, ok, want if ok else f"returns {sym_str(r)}, expected {want}", f.loc())
         panic_regions.append(f)
